@@ -308,13 +308,25 @@ class C16(Property):
                         call = {"text": gen.render_tokens(
                             rng, cfg, dam, always_separate=False)[1]}
                         out.inc("fault.value-loss")
-                elif x < 0.75:                              # token damage
+                elif x < 0.6:                               # token damage
                     plan = e1.random_plan(rng, toks, rng.choice([1, 2]),
                                           ["drop", "dup", "swap", "replace",
                                            "eof"])
                     call = {"text": gen.render_tokens(
                         rng, cfg, e1.apply_plan(toks, plan))[1]}
                     out.inc("fault.token-damage")
+                elif x < 0.75:
+                    # tolerated gaps first, then a fatal error later in the
+                    # same text (and sometimes a dash-continued line): what
+                    # the instance noted on the way must not survive
+                    head = rng.choice(["A =\nB = 1\n", "G =\n\nH =\nK = 2\n",
+                                       "D = \"abc-\n   def\"\nA =\nB = 1\n",
+                                       "D = x-\n  y\nE = \"p-\r\n q\"\n"])
+                    tail = rng.choice(["C = (1, 2", "OBJECT = o\n X = 1\n",
+                                       "C = 1 )\n", "Z = 3\nEND\n",
+                                       "\n\n\nLAST =\n"])
+                    call = {"text": head + text + "\n" + tail}
+                    out.inc("fault.gap-then-fatal-error")
                 elif x < 0.9 and len(toks) > 1:            # abort in flight
                     k = rng.randrange(len(toks))
                     call = {"text": text,
